@@ -6,7 +6,7 @@
 n=${1:-4}
 if [ -n "$(git -C /repo status --porcelain --untracked-files=no)" ]; then echo "/repo not clean"; exit 2; fi
 mkdir -p /tmp/mut
-ls -d /verif/seeded/C*/ | xargs -n1 basename > /tmp/mut/matrix_all.txt
+ls -d /verif/seeded/C*/ | xargs -n1 basename | grep -E "${MATRIX_FILTER:-.}" > /tmp/mut/matrix_all.txt   # MATRIX_FILTER: regex over seed ids (partial matrix)
 for k in $(seq 0 $((n-1))); do
   mkdir -p /tmp/mut/s$k/repo /tmp/mut/s$k/verif
   rsync -a --delete --exclude target /repo/ /tmp/mut/s$k/repo/
